@@ -1,5 +1,6 @@
 """C15 — after successful lowering no backend crashes (panic / unreachable / index out of range)."""
 import os
+import random
 
 import common
 import toolrun
@@ -28,6 +29,8 @@ def main(tier, seed):
         out = []
         for b in toolrun.BACKENDS:
             prog = tooltier.backend_program(b, seed, i, avoid_known=False)
+            if i % 4 == 3 and tooltier.add_traits(prog, random.Random("c15tr/%s/%s/%s" % (seed, i, b)), b):
+                tooltier.emit_rust.assign_abi_names(prog)
             prods = tooltier.prog_productions(prog)
             d = toolrun.fresh_dir(toolrun.workdir("c15", "p%d_%s" % (i, b)))
             variants = VARIANTS[b]
